@@ -45,12 +45,14 @@ class Model:
         self.rnd = rnd
         self.id = next(_mid)
         self.receiver = RECEIVER = rnd.choice(["self", "self", "self", "this", "me"])
+        self.quoted = rnd.random() < 0.35
         self.sigs = {}  # (cls, method) -> params
         self.ret = {}  # (cls, method) -> return type text
         self.funcs = {}  # function name -> params
         names = ["m0", "m1", "m2", "m3"]
         src = [
             "from typing import Iterable, TypeVar, Generic, Any",
+            "import functools",
             "from func_adl import ObjectStream, func_adl_callable, register_func_adl_os_collection",
             "from func_adl.type_based_replacement import ObjectStreamInternalMethods",
             "T = TypeVar('T')",
@@ -89,6 +91,10 @@ class Model:
             src.append(f"class {cls}(Tagged, Calibrated):" if cls == "Jet" else f"class {cls}:")
             # a method whose result type is a type variable nothing binds: the call is still a known call
             src.append("    def gen(self, x: S, strict: bool = False, level: int = 3) -> S: ...")
+            # a method behind a wrapper (inspect.signature looks through it, the object is no plain function)
+            src += ["    @functools.lru_cache(maxsize=None)", f"    def cached({RECEIVER}, a: int = 1, b: float = 2.0) -> float: ..."]
+            self.sigs[(cls, "cached")] = [("a", "int", 1), ("b", "float", 2.0)]
+            self.ret[(cls, "cached")] = "float"
             self.sigs[(cls, "gen")] = [("x", "S", E), ("strict", "bool", False), ("level", "int", 3)]
             self.ret[(cls, "gen")] = "Any"
             for m in names:
@@ -101,12 +107,16 @@ class Model:
                 src += ["    @staticmethod", "    def scale_for(wp: str = 'loose', f: float = 1.0) -> float: ...", "    @classmethod", "    def reserve(cls, n: int = 4, pad: int = 1) -> int: ...",
                         "    @staticmethod", "    def clamp(value: float, lo: float = 0.0, hi: float = 1.0) -> float: ..."]
                 for cm, ct in (("trks", "Iterable[Trk]"), ("trks_my", "MyIter[Trk]"), ("trks_reg", "RegColl[Trk]")):
+                    if self.quoted:
+                        ct = ct.replace("[Trk]", f"['Trk_{self.id}']")
                     params = gen_signature(rnd, 2)
                     self.sigs[(cls, cm)] = params
                     self.ret[(cls, cm)] = ct
                     src.append(f"    def {cm}({sig_text(params)}) -> {ct}: ...")
             if cls == "Event":
                 for cm, ct in (("jets", "Iterable[Jet]"), ("jets_my", "MyIter[Jet]"), ("jets_reg", "RegColl[Jet]"), ("trks", "Iterable[Trk]")):
+                    if self.quoted:
+                        ct = ct.replace("[Jet]", f"['Jet_{self.id}']").replace("[Trk]", f"['Trk_{self.id}']")
                     params = gen_signature(rnd, 2)
                     self.sigs[(cls, cm)] = params
                     self.ret[(cls, cm)] = ct
@@ -127,6 +137,9 @@ class Model:
         src += ["import ast as _ast", "def _proc_new_node(s, a):", "    return s, _ast.Call(func=a.func, args=list(a.args), keywords=list(a.keywords))",
                 "@func_adl_callable(_proc_new_node)", f"def {lead}({sig_text(lp, self_=False)}) -> Jet: ..."]
         RECEIVER = "self"
+        # (python's typing module caches `Iterable['Jet']` - and what the name evaluated to - per process: the quoted names are
+        # unique to this model, as the class names of one real program are)
+        src += [f"Jet_{self.id} = Jet", f"Trk_{self.id} = Trk"]
         self.source = "\n".join(src) + "\n"
         self.ns = {}
         exec(compile(self.source, f"<typedmodel{self.id}>", "exec"), self.ns)
